@@ -7,9 +7,9 @@ usage: seed_add.py <property> <mutant_dir> <seed_id>
 """
 import json, os, shutil, subprocess, sys, time
 prop, mdir, sid = sys.argv[1], sys.argv[2], sys.argv[3]
-WT = "/tmp/mv/wt"
+WT = os.environ.get("SEED_ADD_WT", "/tmp/mv/wt")
 if not os.path.exists(WT):
-    os.makedirs("/tmp/mv", exist_ok=True)
+    os.makedirs(os.path.dirname(WT), exist_ok=True)
     subprocess.run("git -C /repo worktree add --detach %s HEAD" % WT, shell=True)
 def sh(cmd, cwd=None, timeout=3600):
     e = dict(os.environ); e["CARGO_NET_OFFLINE"] = "true"
